@@ -109,7 +109,37 @@ func respScripts(tier string) []respScript {
 	return out
 }
 
+// client request shapes for the fault-free relays: legal but unusual heads. Whatever the
+// client sends, a healthy backend's response must come back unchanged and the proxy must not crash.
+type reqShape struct {
+	name    string
+	method  string
+	headers [][2]string
+	body    string
+	chunk   int
+}
+
+var reqShapes = []reqShape{
+	{"plain", "GET", nil, "", 0},
+	{"connection-trailing-comma", "GET", [][2]string{{"Connection", "keep-alive,"}}, "", 0},
+	{"connection-empty-element", "GET", [][2]string{{"Connection", "keep-alive, ,x-real-ip"}, {"X-Real-Ip", "9.9.9.9"}}, "", 0},
+	{"connection-empty-value", "GET", [][2]string{{"Connection", ""}}, "", 0},
+	{"connection-only-commas", "GET", [][2]string{{"Connection", " , ,"}}, "", 0},
+	{"connection-twice", "GET", [][2]string{{"Connection", "X-A"}, {"Connection", ""}, {"X-A", "1"}}, "", 0},
+	{"connection-close", "GET", [][2]string{{"Connection", "close"}}, "", 0},
+	{"connection-upgrade-without-upgrade", "GET", [][2]string{{"Connection", "Upgrade"}}, "", 0},
+	{"te-trailers", "GET", [][2]string{{"Te", "trailers"}, {"Connection", "Te"}}, "", 0},
+	{"forwarded-lists", "GET", [][2]string{{"X-Forwarded-For", "1.1.1.1, 2.2.2.2"}, {"X-Forwarded-For", ""}, {"X-Real-Ip", ""}, {"X-Forwarded-Proto", ""}}, "", 0},
+	{"range-and-encoding", "GET", [][2]string{{"Accept-Encoding", "gzip"}, {"Range", "bytes=0-0"}, {"If-None-Match", "\"x\""}}, "", 0},
+	{"empty-and-long-values", "GET", [][2]string{{"X-Empty", ""}, {"X-Long", strings.Repeat("v", 8000)}}, "", 0},
+	{"post-declared", "POST", [][2]string{{"Content-Type", "text/plain"}}, "hello", 0},
+	{"post-chunked", "POST", nil, "hello world", 4},
+	{"post-empty", "POST", nil, "", 0},
+	{"options", "OPTIONS", [][2]string{{"Max-Forwards", "0"}}, "", 0},
+}
+
 type c16world struct {
+	shape    int
 	backend  *Backend
 	proxy    http.Handler
 	events   []int
@@ -159,8 +189,12 @@ func (w *c16world) exchange(script []step, target *url.URL, cancelOnArrival bool
 		ctx, c2 = context.WithTimeout(ctx, w.deadline)
 		defer c2()
 	}
-	req := httptest.NewRequest("GET", "http://front.example/x?y=1", nil).WithContext(ctx)
-	req.RequestURI = "/x?y=1"
+	sh := reqShapes[w.shape]
+	parsed, perr := lib.ParseRequest(lib.RawRequest(sh.method, "/x?y=1", sh.headers, []byte(sh.body), sh.chunk))
+	if perr != nil {
+		panic(fmt.Sprintf("request shape %s does not parse: %v", sh.name, perr))
+	}
+	req := parsed.WithContext(ctx)
 	done := make(chan outcome, 1)
 	go func() {
 		rr := httptest.NewRecorder()
@@ -195,7 +229,11 @@ func eventsOK(ev []int) bool {
 }
 
 func runFaultFree(w *c16world, r respScript, rep *lib.Report) {
-	what := map[string]any{"engine": "enum", "part": "c16", "mode": "relay", "script": r.String()}
+	what := map[string]any{"engine": "enum", "part": "c16", "mode": "relay", "script": r.String(), "request_shape": reqShapes[w.shape].name}
+	if w.shape != 0 {
+		what["request"] = reqShapes[w.shape].name
+		rep.Count("relays_with_unusual_request_heads")
+	}
 	o, done := w.exchange(r.steps(), nil, false)
 	defer done()
 	rep.Evaluations++
@@ -204,7 +242,7 @@ func runFaultFree(w *c16world, r respScript, rep *lib.Report) {
 		return
 	}
 	if o.panic != nil {
-		rep.Violate("C16:relay-aborted", fmt.Sprintf("%v: panic %v", r, o.panic), what)
+		rep.Violate("C16:relay-aborted", fmt.Sprintf("%v, request %s: panic %v", r, reqShapes[w.shape].name, o.panic), what)
 		return
 	}
 	if o.code != r.status {
@@ -400,9 +438,9 @@ func runSpecials(w *c16world, rep *lib.Report) {
 func RunC16(tier string, sh lib.Shard, rep *lib.Report) {
 	scripts := respScripts(tier)
 	rep.Bounds["response_scripts"] = len(scripts)
-	rep.Rule = "every backend response script (8 statuses x 3 header sets x body sizes {0,1,4KiB-1,32KiB+1(,1MiB)} x framing {Content-Length, chunked, close-delimited}, written in several pieces) relayed fault-free, and with a fault {close, reset, stall} injected at EVERY step index of the script; plus connection refused, garbage heads and client cancellation; raw TCP backend, real forward.New proxy wrapped in a StateListener and a status-recording writer; non-trivial = faults injected"
+	rep.Rule = "every backend response script (8 statuses x 3 header sets x body sizes {0,1,4KiB-1,32KiB+1(,1MiB)} x framing {Content-Length, chunked, close-delimited}, written in several pieces) relayed fault-free under each of 16 client request heads (Connection with empty list elements, twice, close, upgrade without Upgrade; TE; empty/list forwarding headers; long and empty values; POST declared/chunked/empty; OPTIONS), and with a fault {close, reset, stall} injected at EVERY step index of the script; plus connection refused, garbage heads and client cancellation; raw TCP backend, real forward.New proxy wrapped in a StateListener and a status-recording writer; non-trivial = faults injected"
 	rep.Assume("ResponseHeaderTimeout 150ms is part of the scenario (backend stalls until released); 30s watchdog, hits re-run 5x", "broken or garbage heads may map to 500 or 502")
-	rep.Require("fault_free_relays", "large_bodies_relayed", "faults_injected", "gateway_errors_mapped", "aborted_mid_body")
+	rep.Require("fault_free_relays", "relays_with_unusual_request_heads", "large_bodies_relayed", "faults_injected", "gateway_errors_mapped", "aborted_mid_body")
 	w := newC16World()
 	defer w.backend.Close()
 	k := 0
@@ -423,7 +461,11 @@ func RunC16(tier string, sh lib.Shard, rep *lib.Report) {
 					return
 				}
 				if i == -1 {
-					runFaultFree(w, r, rep)
+					for si := range reqShapes {
+						w.shape = si
+						runFaultFree(w, r, rep)
+					}
+					w.shape = 0
 					continue
 				}
 				if kind == stepStall && i >= 2 {
@@ -458,7 +500,13 @@ func ReplayC16(rp map[string]any) (bool, string) {
 					continue
 				}
 				if rp["mode"] == "relay" {
+					for si, sh := range reqShapes {
+						if sh.name == rp["request_shape"] {
+							w.shape = si
+						}
+					}
 					runFaultFree(w, r, rep)
+					w.shape = 0
 				} else {
 					kind := map[string]stepKind{"close": stepClose, "reset": stepReset, "stall": stepStall}[rp["fault"].(string)]
 					runFault(w, r, int(rp["step"].(float64)), kind, rep)
